@@ -2,11 +2,13 @@
    Property theorems only. Model: models/Timer.v (timeutil/schedule.go function by function, UTC; time zones and DST
    are not modelled), lib/Civil.v (calendar).
    String level: models/TimerText.v (ParseSchedule and Schedule.String over byte lists).
+   Manager level: models/AutoRefresh.v (the planning logic of autoRefresh.Ensure; constants from gen/RefreshConsts.v).
    NOT proved here (partial, see notes/C16.md): that the day search of Schedule.Next terminates within a stated number
    of days (C16_in_window_partial is conditional on `sched_next fuel ... = Some w`). *)
 From Coq Require Import List ZArith Bool String.
 Import ListNotations.
 Require Import V.lib.Bytes V.lib.Civil V.models.Timer V.proofs.TimerProofs V.models.TimerText V.proofs.TimerTextProofs.
+Require Import V.gen.RefreshConsts V.models.AutoRefresh V.proofs.AutoRefreshProofs.
 Open Scope Z_scope.
 
 (* The refresh limit, for ANY schedule functions: whatever windows the schedules' Next return, timeutil.Next's chosen
@@ -64,6 +66,21 @@ Theorem C16_start_2400_refuted : exists w,
 Proof. exact start_2400_counterexample. Qed.
 Print Assumptions C16_start_2400_refuted.
 
+(* The defect behind it, stated exactly: a clock span whose start is 24:00 never contributes to Includes (the window
+   Includes builds for it starts at the midnight AFTER the instant), although Next returns its windows. So an instant
+   of such a window is accepted only if another span of the schedule covers it: with `0:00,24:00-7:30` the start of the
+   returned window (00:00, covered by the span `0:00`) is accepted and its last minute 07:29 is rejected. *)
+Theorem C16_span_2400_never_includes : forall (cs : clockspan) (D t : Z),
+  hour (cs_start cs) = 24 -> 0 <= minute (cs_start cs) -> t / 86400 = D -> span_includes t D cs = false.
+Proof. exact span_2400_never_includes. Qed.
+Print Assumptions C16_span_2400_never_includes.
+
+Theorem C16_start_2400_tail_refuted : exists w,
+  sched_next 400 ex_2400_tail ex_last (ex_last + 60) = Some w /\
+  sched_includes ex_2400_tail (w_start w) = true /\ sched_includes ex_2400_tail (w_end w - 60) = false.
+Proof. exact start_2400_tail_counterexample. Qed.
+Print Assumptions C16_start_2400_tail_refuted.
+
 (* Full statement 2 (every instant of the returned window, also past midnight) is FALSE of the faithful model:
    `23:00-01:00`: Next returns Monday 23:00 - Tuesday 01:00, but Includes rejects Tuesday 00:59 (it only looks at the
    window that starts on the instant's own day). KNOWN_FINDINGS key window-crossing-midnight-tail. *)
@@ -93,6 +110,48 @@ Theorem C16_parsed_roundtrip : forall (text : bytes) (l : list schedule),
   parse_schedule text = Some l -> Forall (fun s => parse_schedule (fmt_sched s) = Some [norm_sched s]) l.
 Proof. exact parsed_roundtrip. Qed.
 Print Assumptions C16_parsed_roundtrip.
+
+(* Manager level. For EVERY history of refresh.timer changes, last-refresh changes and Ensure calls, at every Ensure:
+   a refresh time that remains planned (nextRefresh) was computed by timeutil.Next under the timer configured NOW —
+   a plan made under an earlier timer does not survive a timer change — and an attempt is launched only when such a
+   time, planned under the current timer, is due. (refresh.hold, metered connections, the legacy option and store
+   failures are not modelled.) *)
+Theorem C16_attempt_in_current_timer_window :
+  forall (conf0 : bytes) (evs : list ev) (st : mstate) (conf : bytes) (now r : Z) (st' : mstate) (att : bool),
+  hrun (init_m, conf0) evs = Some (st, conf) ->
+  ensure conf now r st = Some (st', att) ->
+  (forall P, m_next st' = Some P ->
+     exists sch str pl, effective conf = Some (sch, str) /\ m_plan st' = Some pl /\ p_str pl = str /\
+                        plan_time sch (p_last pl) (p_now pl) (p_rand pl) = Some P) /\
+  (att = true ->
+     exists sch str l0 now0 r0 P, effective conf = Some (sch, str) /\
+                                  plan_time sch l0 now0 r0 = Some P /\ P <= now /\ m_next st' = None /\ m_last st' = Some now).
+Proof. exact attempt_in_current_timer_window. Qed.
+Print Assumptions C16_attempt_in_current_timer_window.
+
+(* ... where a planned time is: now if there was no previous refresh; otherwise, for the window w that timeutil.Next
+   chooses (C16_limit) among the windows offered by the schedules' Next (C16_in_window_partial) and the fallback at
+   last + maxPostponement: now if w has started, else w's start plus the random spread of a `~` window. *)
+Theorem C16_planned_time_spec : forall (sch : list schedule) (l now r P : Z),
+  plan_time sch (Some l) now r = Some P ->
+  exists w, top_window sch l now max_postponement_s = Some w /\
+    w_start w <= l + max_postponement_s /\
+    (w = mkWin (l + max_postponement_s) (l + max_postponement_s + 3600) false \/
+     exists s, In s sch /\ sched_next fuel_days s l now = Some w) /\
+    (w_start w < now -> P = now) /\
+    (now <= w_start w -> P = w_start w + (if w_spread w then r else 0)).
+Proof. exact planned_time_spec. Qed.
+Print Assumptions C16_planned_time_spec.
+
+(* generated from overlord/snapstate/autorefresh.go on this run: maxPostponement is 95 days and is the limit passed
+   at both timeutil.Next call sites; Ensure resets nextRefresh when the timer string differs from the remembered one
+   and the remembered string is assigned nowhere else; the default timer parses *)
+Theorem C16_refresh_consts :
+  max_postponement_s = 95 * 86400 /\ next_calls_pass_max_postponement = true /\
+  ensure_resets_on_timer_change = true /\ last_schedule_assigned_only_there = true /\
+  parse_schedule default_str = Some default_sched /\ default_sched <> [].
+Proof. exact refresh_consts_facts. Qed.
+Print Assumptions C16_refresh_consts.
 
 (* non-vacuity: the default refresh timer 00:00~24:00/4 *)
 Example C16_default_timer_example : exists w,
